@@ -89,7 +89,9 @@ def gen_class(rnd, i):
     fields.sort(key=lambda f: f["default"])
     inherit = rnd.random() < 0.3          # fields and helpers in a base class, validators in the subclass
     cname = f"VB{i}" if inherit else f"V{i}"
-    lines = ["@dataclass", f"class {cname}:"]
+    # a Generic class used through a subscripted alias (V[int]): its validators are those of the class
+    generic = rnd.random() < 0.25
+    lines = ["@dataclass", f"class {cname}" + ("(Generic[T]):" if generic and not inherit else ":")]
     for f in fields:
         md = f"metadata=alias({f['alias']!r})" if f["alias"] != f["name"] else ""
         rhs = (f" = field(default=0, {md})" if md else " = 0") if f["default"] else (f" = field({md})" if md else "")
@@ -98,7 +100,7 @@ def gen_class(rnd, i):
         # helpers defined in the base class: a method and a property, each reading one field
         for n in names:
             lines += [f"    def get_{n}(self):", f"        return self.{n}", "    @property", f"    def prop_{n}(self):", f"        return self.{n}"]
-        lines += ["", "@dataclass", f"class V{i}({cname}):"]
+        lines += ["", "@dataclass", f"class V{i}({cname}" + (", Generic[T]):" if generic else "):")]
     vals = []
     for j in range(rnd.randint(1, 4)):
         deps = sorted(rnd.sample(names, rnd.randint(1, min(2, len(names)))))
@@ -117,7 +119,7 @@ def gen_class(rnd, i):
         lines += [f"    {deco}", f"    def check{j}(self):"] + body
         vals.append({"j": j, "deps": deps, "style": style, "kind": kind, "field": tgt if kind == "field" else None,
                      "discard": disc if kind == "discard" else ([tgt] if kind == "field" else [])})
-    return {"cls": f"V{i}", "src": lines, "fields": fields, "validators": vals}
+    return {"cls": f"V{i}", "src": lines, "fields": fields, "validators": vals, "generic": generic}
 
 
 def gen_datum(rnd, c):
@@ -154,7 +156,7 @@ def e2e_spec(c, st):
     return {"ran": ran, "errs": sorted(errs, key=json.dumps), "built": not errs}
 
 
-E2E_HEADER = ["from dataclasses import dataclass, field", "from apischema import validator, ValidationError, alias", "LOG = []", ""]
+E2E_HEADER = ["from dataclasses import dataclass, field", "from typing import Generic, TypeVar", "from apischema import validator, ValidationError, alias", "LOG = []", "T = TypeVar('T')", ""]
 
 
 def _al(s): return "al_" + s
@@ -170,7 +172,9 @@ def run_e2e(mod, c, d, aliased=False):
     if aliased: d = {_al(k): v for k, v in d.items()}
     unal = (lambda loc: [x[3:] if isinstance(x, str) and x.startswith("al_") else ("UNALIASED:" + x if isinstance(x, str) else x) for x in loc]) if aliased else list
     try:
-        v = deserialize(getattr(mod, c["cls"]), dict(d), **kw)
+        tp = getattr(mod, c["cls"])
+        if c.get("generic"): tp = tp[int]
+        v = deserialize(tp, dict(d), **kw)
         return {"ran": [j for (_, j) in mod.LOG], "errs": [], "built": True}
     except ValidationError as e:
         return {"ran": [j for (_, j) in mod.LOG], "errs": sorted(([unal(x["loc"]), x["err"]] for x in e.errors), key=json.dumps), "built": False}
@@ -218,7 +222,7 @@ def run(prop, seed, budget, ctx):
             if len(c["validators"]) > 1: distinct.add(case_hash(c["src"], d))
             if len(samples) < 6: samples.append({"class": c["src"], "datum": d, "real": r})
             if r != s:
-                failures.append({"part": "deserialize", "cls": c["cls"], "src": c["src"], "datum": d, "states": st, "real": r, "spec": s, "aliased": aliased,
+                failures.append({"part": "deserialize", "cls": c["cls"], "src": c["src"], "datum": d, "states": st, "real": r, "spec": s, "aliased": aliased, "generic": c.get("generic", False),
                                  "validators": c["validators"], "fields": c["fields"], "kind": "P", "k_ok": None,
                                  "why": ["validation-does-not-terminate" if "crash" in r else "invoked-validators-or-merged-errors-differ-from-the-specification"]})
     # part 3: errors yielded with paths: the path (a key, an index - 0 included -, a sequence of them, or nothing) is where the
@@ -271,7 +275,7 @@ def e2e_locations(seed, budget):
             r = run_e2e(mod, c, d, True); s = e2e_spec(c, st)
             if len(c["validators"]) > 1: distinct.add(case_hash(c["src"], d))
             if "crash" not in r and r["errs"] != s["errs"]:
-                failures.append({"part": "deserialize", "cls": c["cls"], "src": c["src"], "datum": d, "states": st, "real": r, "spec": s, "aliased": True,
+                failures.append({"part": "deserialize", "cls": c["cls"], "src": c["src"], "datum": d, "states": st, "real": r, "spec": s, "aliased": True, "generic": c.get("generic", False),
                                  "validators": c["validators"], "fields": c["fields"], "kind": "P", "k_ok": None,
                                  "why": ["error-location-is-not-the-aliased-path"]})
     return failures, n, distinct
@@ -293,6 +297,6 @@ def replay(prop, case, ctx):
         r = run_real(case["validators"]); s = spec(case["validators"])
         return {"real": r, "spec": s, "fails": "crash" in r or norm(r) != s}
     mod = build_module(E2E_HEADER + case["src"], "valreplay")
-    c = {"cls": case["cls"], "validators": case["validators"], "fields": case["fields"]}
+    c = {"cls": case["cls"], "validators": case["validators"], "fields": case["fields"], "generic": case.get("generic", False)}
     r = run_e2e(mod, c, case["datum"], case.get("aliased", False)); s = e2e_spec(c, case["states"])
     return {"real": r, "spec": s, "fails": r != s}
